@@ -73,8 +73,20 @@ fn gen_program(t: &mut Tape) -> (String, Vec<String>, bool) {
     let mut src = String::new();
     let sv = g.text().replace('"', "'");
     src.push_str(&format!("VAR s = \"{}\"\nVAR n = 0\n", sv.replace('\\', "")));
-    src.push_str(&format!("{}{}\n-> k0\n", g.text(), g.tags()));
+    // a third of the programs start inside a tunnel that offers a choice, and have a knot that
+    // ends in `->->`: a `-> knot` typed at that choice abandons the tunnel (the tool jumps with a
+    // call-stack reset, as the library call it stands for), so what follows depends on the stack
+    let with_tunnel = g.t.chance(1, 3);
+    if with_tunnel {
+        src.push_str(&format!("{}{}\n-> tun ->\n{}\n-> k0\n", g.text(), g.tags(), g.text()));
+    } else {
+        src.push_str(&format!("{}{}\n-> k0\n", g.text(), g.tags()));
+    }
     let mut names = vec![];
+    if with_tunnel {
+        names.push("ret".to_string());
+        names.push("ret".to_string());
+    }
     for k in 0..nk {
         names.push(format!("k{k}"));
         src.push_str(&format!("=== k{k} ===\n"));
@@ -102,6 +114,10 @@ fn gen_program(t: &mut Tape) -> (String, Vec<String>, bool) {
             src.push_str(&format!("- {}\n", g.text()));
         }
         src.push_str(&format!("-> {next}\n"));
+    }
+    if with_tunnel {
+        src.push_str(&format!("=== tun ===\n{}\n* [{}]\n    {}\n+ [{}]\n    -> tun\n- ->->\n", g.text(), g.text(), g.text(), g.text()));
+        src.push_str(&format!("=== ret ===\n{}\n->->\n", g.text()));
     }
     (src, names, g.hostile_used)
 }
